@@ -2007,7 +2007,7 @@ def check_property(pid, tier, seed, do_lean=True, write_evidence=True):
         for j, f in corr_failures:
             focus |= {n for n in job_views(j) if n in gen.CATALOGUE or n in gen.TWO or n in gen.BINOPS or n == "tanh"}
         if focus or everything:
-            budget = float(os.environ.get("VERIF_SEARCH_S", 75 if tier == "quick" else 600))
+            budget = float(os.environ.get("VERIF_SEARCH_S", 45 if tier == "quick" else 600))
             log("%s: sources differ from the validated ones (%s)%s: searching the views %s for a failing input (<= %.0fs)"
                 % (pid, ", ".join(changed) or "-", " / correspondence broke" if corr_failures else "",
                    "ALL" if everything else sorted(focus), budget))
